@@ -72,6 +72,18 @@ func (iv *interval) narrow(rel int, c float64) {
 	}
 }
 
+func intWidth(b *types.Basic) int {
+	switch b.Kind() {
+	case types.Int8, types.Uint8:
+		return 1
+	case types.Int16, types.Uint16:
+		return 2
+	case types.Int32, types.Uint32:
+		return 4
+	}
+	return 8
+}
+
 // downSet is {x : x < a} (strict) or {x : x <= a}.
 type downSet struct {
 	a      float64
@@ -89,7 +101,9 @@ func preDown(t string, d downSet) (downSet, bool) {
 		n--
 	}
 	switch {
-	case t == "float64" || t == "int":
+	case t == "float64" || t == "int" || strings.HasPrefix(t, "narrow-"):
+		// (a narrowing conversion is compared as the value itself: exact below the narrow type's limit; the emitted text keeps the
+		// transform, which A-REJ:lossy reports)
 		return d, true
 	case strings.HasPrefix(t, "+") || (strings.HasPrefix(t, "-") && len(t) > 1):
 		var k float64
@@ -164,14 +178,14 @@ func (m *Machine) rel3(n Num, c float64) int {
 	c -= n.Off
 	plain := true
 	for _, t := range n.Tr {
-		if t != "float64" && t != "int" {
+		if t != "float64" && t != "int" && !strings.HasPrefix(t, "narrow-") {
 			plain = false
 		}
 	}
 	iv := m.ivOf(n.A)
 	if plain || n.A.Facts["integral"] == "yes" || n.A.Kind == "PosInt" {
 		for _, t := range n.Tr {
-			if !(t == "float64" || t == "int" || isRounding(t)) {
+			if !(t == "float64" || t == "int" || isRounding(t) || strings.HasPrefix(t, "narrow-")) {
 				panic(m.undecided("comparison of a transformed number (%s) with a constant", t))
 			}
 		}
@@ -615,6 +629,13 @@ func (m *Machine) convert(v Value, from, to types.Type) Value {
 					r := x
 					r.Tr = append(append([]string{}, x.Tr...), "trunc-"+tb.Name())
 					r.IsFloat = false
+					return r
+				}
+				// an integer conversion to a NARROWER type wraps large values: recorded, so that a limit that reaches emitted text
+				// through it is reported (rune classes are exempt: they are code points)
+				if fb, ok := fu.(*types.Basic); ok && fb.Info()&types.IsInteger != 0 && x.A.Kind != "Rune" && intWidth(tb) < intWidth(fb) {
+					r := x
+					r.Tr = append(append([]string{}, x.Tr...), "narrow-"+tb.Name())
 					return r
 				}
 				return x
